@@ -229,6 +229,12 @@ def space_g(tier: str):
                 e = R.engine("G", [R.in_var("x"), R.in_var("y")], [o1, o2], [R.block("rb", rules, "Minimum", "Maximum", None)])
                 e["shared_objects"] = True
                 yield e, rows
+                if g is None:
+                    # range locked on [0, 1] although the weighted value reaches 1.5 / 2: the committed value is clipped
+                    e2 = R.clone(e)
+                    for o in e2["outputs"]:
+                        o["max"], o["lock_range"] = 1.0, True
+                    yield e2, rows
     for df in INTEGRAL:
         for g, i in (("Maximum", "Minimum"), ("AlgebraicSum", "AlgebraicProduct"), ("Maximum", "EinsteinProduct")):
             o1 = R.out_var("o1", 0.0, 1.0, aggregation=g, defuzzifier=(df, 16))
@@ -271,6 +277,10 @@ def plan(tier: str, seed: int):
 
 def run_recipe(acc: Acc, recipe: dict, rows, space: str) -> None:
     engine = R.build(recipe)
+    for rb in engine.rule_blocks:  # loading a loaded rule again gives the same rule (nothing accumulates)
+        for rule in rb.rules:
+            if rule.is_loaded():
+                rule.load(engine)
     pipe = Pipeline(recipe)
     acc.states += 1
     for row in rows:
